@@ -41,6 +41,8 @@ type sqlParams struct {
 
 // StmtInfo is recorded in the trace for the statement-level obligations (C11, C03, C10).
 type StmtInfo struct {
+	Params   *sqlParams
+	DocsAt   Term
 	Stmt     *SQLStmt
 	Handle   string // tx | pool
 	Table    string
@@ -111,6 +113,8 @@ func (e *Engine) buildParams(st *State, args []Value) *sqlParams {
 }
 
 type evalCtx struct {
+	docOfIn Term // DocId of the documents row that the left side of `x IN (SELECT id FROM documents ...)` refers to
+	docsIn  Term
 	e      *Engine
 	st     *State
 	params *sqlParams
@@ -283,6 +287,16 @@ func (c *evalCtx) eval(x *SQLExpr) SQLVal {
 			return SQLVal{Any: true}
 		}
 		return SQLVal{T: arith(x.Op, a.T, b.T), Null: Or(a.Null, b.Null)}
+	case "in":
+		// col IN (SELECT id FROM documents WHERE w): holds iff the documents row with that id exists and satisfies w.
+		// The caller designates that row (docOfIn); anything else is unknown.
+		if x.Sub != nil && strings.EqualFold(x.Sub.Table, "documents") && c.docOfIn.S != "" && len(x.Sub.Sel) == 1 &&
+			x.Sub.Sel[0].Expr != nil && x.Sub.Sel[0].Expr.Op == "col" && strings.EqualFold(x.Sub.Sel[0].Expr.Name, "id") {
+			sub := &evalCtx{e: c.e, st: c.st, params: c.params, table: "documents"}
+			sub.row, sub.id = Select(c.docsIn, c.docOfIn, SRow), c.docOfIn
+			return SQLVal{T: And(rowPresent(sub.row), sub.where(x.Sub.Where)), Null: TFalse}
+		}
+		return SQLVal{Any: true}
 	case "call":
 		switch x.Name {
 		case "iif":
@@ -604,7 +618,7 @@ func (e *Engine) bumpTable(st *State, table string) {
 
 // execStmt applies a write statement. Returns the sql.Result and a "fails with constraint error" condition.
 func (e *Engine) execStmt(st *State, stmt *SQLStmt, params *sqlParams, handle, text, pos string) (Value, Term) {
-	info := &StmtInfo{Stmt: stmt, Handle: handle, Table: strings.ToLower(stmt.Table), Kind: stmt.Kind, Writes: true}
+	info := &StmtInfo{Stmt: stmt, Handle: handle, Table: strings.ToLower(stmt.Table), Kind: stmt.Kind, Writes: true, Params: params, DocsAt: st.g.Docs}
 	defer e.recordStmt(st, info, text, pos)
 	snap := st.g.clone()
 	st.preStmt = &snap
@@ -893,7 +907,7 @@ func sqlQueryRowModel(e *Engine, st *State, args []Value, depth int, pos string,
 }
 
 func (e *Engine) queryRow(st *State, stmt *SQLStmt, params *sqlParams, handle, text, pos string) *RowResult {
-	info := &StmtInfo{Stmt: stmt, Handle: handle, Table: strings.ToLower(stmt.Table), Kind: stmt.Kind}
+	info := &StmtInfo{Stmt: stmt, Handle: handle, Table: strings.ToLower(stmt.Table), Kind: stmt.Kind, Params: params, DocsAt: st.g.Docs}
 	defer e.recordStmt(st, info, text, pos)
 	c := &evalCtx{e: e, st: st, params: params, table: info.Table}
 	rr := &RowResult{}
